@@ -456,6 +456,129 @@ def _state_payload_j(snode: dcgen.Node, enc: bytes) -> Any:
     return dcgen.canon_j(dcgen.wire_j(dcgen.Node(snode.desc, "dcbin", None, snode.children, snode.cls, snode.fields), enc))
 
 
+# ------------------------------------------------------------------------------------------------ repeated deserialization
+
+
+def _mutable_ids(v: Any, out: dict[int, str], path: str = "") -> None:
+    """ids of every list / dict reachable from a deserialized instance (through dataclass fields and containers)."""
+    import dataclasses as _dc
+
+    if isinstance(v, list):
+        out[id(v)] = path + "list"
+        for x in v:
+            _mutable_ids(x, out, path + "[")
+    elif isinstance(v, dict):
+        out[id(v)] = path + "dict"
+        for k, x in v.items():
+            _mutable_ids(k, out, path + "{")
+            _mutable_ids(x, out, path + "{")
+    elif isinstance(v, (set, frozenset, tuple)):
+        for x in v:
+            _mutable_ids(x, out, path + "(")
+    elif _dc.is_dataclass(v) and not isinstance(v, type):
+        for f in _dc.fields(v):
+            _mutable_ids(getattr(v, f.name), out, f"{path}{f.name}.")
+
+
+def _mutate_in_place(node: dcgen.Node, v: Any, rng: Any) -> bool:
+    """Use a value as scratch space: grow every list / dict reachable in it."""
+    if v is None:
+        return False
+    k = node.kind
+    if k == "opt":
+        return _mutate_in_place(node.children[0], v, rng)
+    if k == "list" and isinstance(v, list):
+        v.append(dcgen.to_py(node.children[0], dcgen.gen_value(rng, node.children[0].desc, small=True)))
+        return True
+    if k == "map" and isinstance(v, dict):
+        n0 = len(v)
+        for _ in range(8):
+            v[dcgen.to_py(node.children[0], dcgen.gen_value(rng, node.children[0].desc, small=True, hashable=True))] = dcgen.to_py(
+                node.children[1], dcgen.gen_value(rng, node.children[1].desc, small=True))
+            if len(v) != n0:
+                return True
+        return False
+    if k in ("dc", "dcbin"):
+        done = False
+        for f, ch in zip(node.fields, node.children):
+            done = _mutate_in_place(ch, getattr(v, dcgen.j2s(f["name"])), rng) or done
+        return done
+    return False
+
+
+def _mutate_transients(node: dcgen.Node, v: Any, rng: Any) -> bool:
+    """Mutate, in place, the transient fields (at any depth) of a deserialized instance."""
+    if v is None:
+        return False
+    k = node.kind
+    if k == "opt":
+        return _mutate_transients(node.children[0], v, rng)
+    if k == "list" and isinstance(v, list):
+        return any([_mutate_transients(node.children[0], x, rng) for x in v])
+    if k == "map" and isinstance(v, dict):
+        return any([_mutate_transients(node.children[1], x, rng) for x in v.values()])
+    if k in ("dc", "dcbin"):
+        done = False
+        for f, ch in zip(node.fields, node.children):
+            val = getattr(v, dcgen.j2s(f["name"]))
+            done = (_mutate_in_place(ch, val, rng) if f["transient"] else _mutate_transients(ch, val, rng)) or done
+        return done
+    return False
+
+
+def check_repeat(ctx: Any, b: Built, jobj: Any, rng: Any) -> None:
+    """The same bytes deserialized repeatedly, with the copies *used* in between: every copy is equal to the original (transient
+    fields at their defaults) and no two copies share a mutable object — on the Arrow path, the compact path and the state path."""
+    from vgi_rpc.http.server._state_token import _deserialize_state_bytes, _resolve_state_cls, _serialize_state_bytes
+    from vgi_rpc.utils import IpcValidation, deserialize_compact, serialize_compact
+
+    nontrivial = any(not f["transient"] for f in b.desc["fields"])
+    paths: list[tuple[str, dcgen.Node, Any, Any]] = []
+    try:
+        node = b.node
+        obj = dcgen.to_py(node, jobj)
+        data = obj.serialize_to_bytes()
+        paths.append(("arrow", node, obj, lambda: b.cls.deserialize_from_bytes(data)))
+        enc = serialize_compact(obj)
+        if enc is not None:
+            paths.append(("compact", node, obj, lambda: deserialize_compact(b.cls, enc)))
+        snode = b.state_node()
+        sobj = dcgen.to_py(snode, jobj)
+        sdata = _serialize_state_bytes(sobj, snode.cls)
+
+        def from_state() -> Any:
+            rcls, raw = _resolve_state_cls(sdata, snode.cls)
+            return _deserialize_state_bytes(rcls, raw, IpcValidation.FULL)
+
+        paths.append(("state", snode, sobj, from_state))
+    except Exception:  # noqa: BLE001  (a failing single round trip is check_instance's business)
+        return
+    for name, nd, o, decode in paths:
+        case = {"path": "repeat", "via": name, "cls": b.desc, "obj": jobj}
+        ctx.case(case, nontrivial=nontrivial, tags=(f"path:repeat:{name}",))
+        try:
+            c1, c2 = decode(), decode()
+            ids1: dict[int, str] = {}
+            ids2: dict[int, str] = {}
+            _mutable_ids(c1, ids1)
+            _mutable_ids(c2, ids2)
+            shared = sorted(ids1[i] for i in ids1.keys() & ids2.keys())
+            if shared:
+                ctx.fail(case, f"C03:deserialized-instances-share-mutable:{name}:{shared[0]}",
+                         f"two instances deserialized from the same bytes share a mutable object at {shared}")
+            mutated = _mutate_transients(nd, c1, rng)
+            ctx.tag("repeat:mutated:" + ("yes" if mutated else "no"))
+            c3 = decode()
+            want = dcgen.to_j(dcgen.expected(nd, o), strict=False)
+            got = dcgen.to_j(c3, strict=False)
+            if got != want:
+                where = _first_diff(nd, want, got)
+                ctx.fail(case, f"C03:repeat-deserialize-differs:{name}:{where}",
+                         f"after an earlier copy used its transient fields, deserializing the same bytes again gives {got}, expected {want}")
+        except Exception as e:  # noqa: BLE001
+            ctx.fail(case, f"C03:repeat-deserialize-error:{name}:{type(e).__name__}", f"repeated deserialization raised {e!r}")
+
+
 # ------------------------------------------------------------------------------------------------ perturbed rows
 
 
@@ -620,6 +743,14 @@ def corpus() -> list[tuple[dict[str, Any], list[Any]]]:
                                                [_S("m"), {"d": [[{"s": _S("a")}, None]]}]]]},
                      {"o": [_S("NullStruct"), [[_S("o"), {"o": [_S("OuterE"), [[_S("inner"), {"o": [_S("InnerE"), [[_S("c"), {"e": _S("GREEN")}]]]}]]]}],
                                                [_S("l"), {"l": [None, {"o": [_S("InnerE"), [[_S("c"), {"e": _S("RED")}]]]}]}], [_S("m"), {"d": []}]]]}]))
+    # scratch space: transient mutable containers built by default_factory, top level and inside a nested dataclass
+    seen_inner = _c("SeenInner", _f("n", {"k": "int"}), _f("seen", {"k": "list", "a": {"k": "int"}}, transient=True, default={"l": []}))
+    d9 = _c("Doc", _f("name", {"k": "str"}), _f("inner", seen_inner),
+            _f("cache", {"k": "map", "key": {"k": "str"}, "val": {"k": "int"}}, transient=True, default={"d": []}),
+            _f("work", _c("Work", _f("items", {"k": "list", "a": {"k": "str"}})), transient=True,
+               default={"o": [_S("Work"), [[_S("items"), {"l": []}]]]}))
+    out.append((d9, [{"o": [_S("Doc"), [[_S("name"), {"s": _S("a")}], [_S("inner"), {"o": [_S("SeenInner"), [[_S("n"), {"i": 1}], [_S("seen"), {"l": []}]]]}],
+                                        [_S("cache"), {"d": []}], [_S("work"), {"o": [_S("Work"), [[_S("items"), {"l": []}]]]}]]]}]))
     d7 = _c("AllT", _f("t", {"k": "int"}, transient=True, default={"i": 7}))
     out.append((d7, [{"o": [_S("AllT"), [[_S("t"), {"i": 5}]]]}]))
     out.append((empty, [{"o": [_S("Empty"), []]}]))
@@ -748,6 +879,8 @@ def _run_class(ctx: Any, desc: dict[str, Any], objs: list[Any], origin: str) -> 
                 for have in (True, False):
                     check_state(ctx, q, b, jobj, have, union)
         check_perturbed(ctx, q, b, jobj, rng)
+        if idx < 2 and dcgen.has_transient(desc):
+            check_repeat(ctx, b, jobj, rng)
         if idx == 0:
             pj = perturb_instance(rng, desc, jobj)
             if pj is not None:
@@ -813,6 +946,10 @@ def replay(ctx: Any, case: dict[str, Any]) -> None:
             check_perturbed(ctx, q, b, case["obj"], random.Random(seed))
     elif path == "noshim-subprocess":
         check_noshim(ctx, [(case["cls"], [case["obj"]])])
+    elif path == "repeat":
+        import random
+
+        check_repeat(ctx, b, case["obj"], random.Random(0))
     q.flush()
 
 
